@@ -235,6 +235,22 @@ fn leftrec_shapes<'s>() -> Vec<(&'static str, Boxed<'s, 's, &'s str, String, EL<
         recursive(|e| e.memoized().then(op()).then(atom()).map(|((l, o), r): ((String, char), String)| format!("({}{}{})", l, o, r)).or(atom())).boxed(),
     ));
     {
+        // the cycle passes through a context boundary (with_ctx swaps the context, not the memo table)
+        let mut expr = Recursive::declare();
+        expr.define(expr.clone().with_ctx(()).then(op()).then(atom()).map(|((l, o), r): ((String, char), String)| format!("({}{}{})", l, o, r)).memoized().or(atom()));
+        v.push(("expr = (expr.with_ctx(()) op atom).memoized() | atom", expr.boxed()));
+    }
+    {
+        let mut expr = Recursive::declare();
+        expr.define(empty().ignore_with_ctx(expr.clone()).then(op()).then(atom()).map(|((l, o), r): ((String, char), String)| format!("({}{}{})", l, o, r)).memoized().or(atom()));
+        v.push(("expr = (empty().ignore_with_ctx(expr) op atom).memoized() | atom", expr.boxed()));
+    }
+    {
+        let mut expr = Recursive::declare();
+        expr.define(empty().then_with_ctx(expr.clone()).map(|(_, e): ((), String)| e).then(op()).then(atom()).map(|((l, o), r): ((String, char), String)| format!("({}{}{})", l, o, r)).or(atom()).memoized());
+        v.push(("expr = (empty().then_with_ctx(expr) op atom | atom).memoized()", expr.boxed()));
+    }
+    {
         // mutual: a = b.memoized() '+' | 'x' ; b = a 'y' | 'x'
         let mut a = Recursive::declare();
         let mut b = Recursive::declare();
@@ -369,7 +385,7 @@ pub fn run(cx: &RunCtx) -> i32 {
         cx,
         acc,
         Finish {
-            rule: format!("(1) every grammar with <= {size} nodes over the K02 basis (with validate emitters) x every non-empty subset of its nodes wrapped in memoized() x every input <= {max_len} over {{a,b,é}}: acceptance, output and the complete Rich error list must equal the plain grammar's (real vs real), and each memoized run is also compared with the reference model; {n_rand} random grammars (also recovery and folds) x 4 sampled subsets (incl. the same node memoized twice) x 5 inputs; (2) 8 statically typed placements (zero-sized memoized parsers as alternatives and in sequence, directly nested, first-field, adjacent, cloned, in repetitions) x all inputs <= {} over {{a,b}} against their plain formulation; (3) 5 left-recursive shapes (memoized at the recursive step, around the whole body, at the reference, mutual, doubly recursive) x all inputs <= {lr_len} over {{x,+,y}} in a child process with a 10^7 logical-step budget per parse and an 8 GiB address-space limit: every parse must return a ParseResult. Non-trivial: the reference evaluation backtracked / the plain static formulation accepts / the left-recursive parse returned", cx.t(4, 6)),
+            rule: format!("(1) every grammar with <= {size} nodes over the K02 basis (with validate emitters) x every non-empty subset of its nodes wrapped in memoized() x every input <= {max_len} over {{a,b,é}}: acceptance, output and the complete Rich error list must equal the plain grammar's (real vs real), and each memoized run is also compared with the reference model; {n_rand} random grammars (also recovery and folds) x 4 sampled subsets (incl. the same node memoized twice) x 5 inputs; (2) 8 statically typed placements (zero-sized memoized parsers as alternatives and in sequence, directly nested, first-field, adjacent, cloned, in repetitions) x all inputs <= {} over {{a,b}} against their plain formulation; (3) 8 left-recursive shapes (memoized at the recursive step, around the whole body, at the reference, through with_ctx / ignore_with_ctx / then_with_ctx boundaries, mutual, doubly recursive) x all inputs <= {lr_len} over {{x,+,y}} in a child process with a 10^7 logical-step budget per parse and an 8 GiB address-space limit: every parse must return a ParseResult. Non-trivial: the reference evaluation backtracked / the plain static formulation accepts / the left-recursive parse returned", cx.t(4, 6)),
             exhaustive: false,
             exhaustive_note: format!("grammars <= {size} nodes x all memoized() subsets x inputs <= {max_len}: complete"),
             assumptions: vec![
